@@ -1,5 +1,6 @@
 #![allow(dead_code, unused_variables, unused_imports, unused_mut, unused_macros, clippy::all)]
 mod ap;
+mod errm;
 mod gen;
 mod icfg;
 mod work;
